@@ -212,9 +212,21 @@ def r18d(ctx, rep, rule="R18d"):
                 if c is not None and c.get("ty") == "char" and "int" in c:
                     accepted.add(c["int"])
     rep.floor(rule, "explicit characters accepted by is_initial_identifier", len(accepted), 10)
+    # characters the encoder escapes by an arm of its own, before consulting the identifier predicates
+    own = set()
+    for c in facts.closures_of(ss) + [ss]:
+        for bb, arms, other, t in char_switches(c):
+            for v, tg in arms.items():
+                others = {x for x in arms.values() if x != tg} | {other}
+                calls, _ = arm_effects(c, tg, stop=others, limit=14)
+                if any(x.endswith("fmt::format") for x in calls) and not any(x.endswith("ToString>::to_string") or x.endswith("::to_string") for x in calls):
+                    own.add(v)
     for i in sorted(intro):
         key = "%s|introducer|%s" % (rule, "U+%04X" % i)
-        if i in accepted:
+        if i in accepted and i in own:
+            rep.ok(rule, key, "the decoder's escape introducer %r is an identifier character for the lexer, but the encoder escapes it "
+                   "by an arm of its own before consulting the predicates" % chr(i), [ss.span])
+        elif i in accepted:
             rep.fail(rule, key, "the decoder's escape introducer %r is passed through unescaped by the encoder "
                      "(is_initial_identifier accepts it): (symbol->string (string->symbol s)) differs from s when s "
                      "contains it" % chr(i), [ii.span])
